@@ -49,13 +49,21 @@ JOBS = {
     "dec-short-b": ("decoder", "[Ge][Ge]", {}),
     "dec-chg-a": ("decoder", "[N+1][C]", {}),
     "dec-chg-b": ("decoder", "[=N+1][O]", {}),
+    # calls that differ in their *flags*, and calls that fail (the exception text names the call's own input)
+    "dec-compat": ("decoder", "[C@@Hexpl][Branch1_1][C][Clexpl]", {"compatible": True}),
+    "dec-legacy-noflag": ("decoder", "[N][Branch1_1][C][O][Cexpl]", {}),
+    "dec-fail": ("decoder", "[C][O][C][Foo]", {}),
+    "enc-nonstrict": ("encoder", "C(F)(F)(F)(F)F", {"strict": False}),
+    "enc-fail": ("encoder", "N1CC(C", {}),
 }
 PAIRS = [("dec-Si-a", "dec-Si-b"), ("dec-Si-a", "dec-SiH"), ("dec-ring-a", "dec-ring-b"),
          ("dec-branch-frag", "dec-branch2"), ("enc-ring-Si", "dec-ring-b"), ("enc-pyridine", "enc-pyrrole"),
          ("dec-attr-a", "dec-attr-b"), ("enc-strict-fail", "dec-Si-a"), ("enc-attr", "dec-attr-b"),
          ("dec-short-a", "dec-short-b"), ("dec-chg-a", "dec-chg-b"), ("dec-Si-a", "dec-Si-a"),
          ("enc-oddfused-a", "enc-oddfused-a"), ("enc-oddfused-a", "enc-oddfused-b"), ("enc-pyridine", "enc-pyridine"),
-         ("enc-two-rings-a", "enc-two-rings-b"), ("enc-two-rings-a", "enc-two-rings-a")]
+         ("enc-two-rings-a", "enc-two-rings-b"), ("enc-two-rings-a", "enc-two-rings-a"),
+         ("dec-compat", "dec-legacy-noflag"), ("dec-compat", "dec-Si-a"), ("dec-fail", "dec-legacy-noflag"),
+         ("enc-nonstrict", "enc-strict-fail"), ("enc-fail", "enc-pyridine"), ("dec-fail", "dec-ring-a")]
 SHORT = [("dec-short-a", "dec-short-b"), ("dec-chg-a", "dec-chg-b"), ("dec-Si-b", "dec-Si-b")]
 TRIPLES = [("dec-short-a", "dec-short-b", "dec-Si-b"), ("dec-chg-a", "dec-chg-b", "enc-pyrrole")]
 NCHUNK = 8
